@@ -42,6 +42,17 @@ Definition valid_reductionb (mesh : list A) (red : list (A * nat)) : bool :=
   forallb (fun rc => Nat.ltb 0 (snd rc) && Nat.eqb (snd rc) (count_class (cls (fst rc)) mesh)) red &&
   forallb (fun k => existsb (fun rc => beqb (cls (fst rc)) (cls k)) red) mesh.
 
+(* a reduction may list several representatives of one class (an orbit split over two |k|^2 shells by rounding): merging the
+   entries of equal class (adding their counts) must give a valid reduction, and every listed count must be positive *)
+Fixpoint absorb (rc : A * nat) (acc : list (A * nat)) : list (A * nat) :=
+  match acc with
+  | [] => [rc]
+  | (r, c) :: t => if beqb (cls r) (cls (fst rc)) then (r, (c + snd rc)%nat) :: t else (r, c) :: absorb rc t
+  end.
+Definition merge (red : list (A * nat)) : list (A * nat) := fold_left (fun acc rc => absorb rc acc) red [].
+Definition valid_reduction2b (mesh : list A) (red : list (A * nat)) : bool :=
+  forallb (fun rc => Nat.ltb 0 (snd rc)) red && valid_reductionb mesh (merge red).
+
 Definition total (red : list (A * nat)) : nat := fold_right (fun rc s => (snd rc + s)%nat) 0%nat red.
 End Reduce.
 
@@ -49,6 +60,9 @@ Arguments insert {A B} cls beqb k acc.
 Arguments reduce {A B} cls beqb mesh.
 Arguments count_class {A B} cls beqb b mesh.
 Arguments valid_reductionb {A B} cls beqb mesh red.
+Arguments absorb {A B} cls beqb rc acc.
+Arguments merge {A B} cls beqb red.
+Arguments valid_reduction2b {A B} cls beqb mesh red.
 Arguments distinctb {B} beqb l.
 Arguments total {A} red.
 
@@ -82,7 +96,8 @@ Definition inBZb (Q : metric) (L : Z) (c2 : Z) (hmax : V3) (n : V3) : bool :=
 
 (* ---- the correspondence decision ----------------------------------------------------
    0 ok   1 certificate / operations rejected   2 a point of the full mesh is outside the BZ
-   3 a point of the reduced mesh is outside the BZ   4 the reduced mesh is not a valid reduction
+   3 a point of the reduced mesh is outside the BZ   4 the reduced mesh is not a valid reduction (a count is not positive, the
+   counts of the representatives of a class do not add up to its multiplicity, or a class has no representative)
    (the second component is the index of the first offending point for codes 2, 3) *)
 Record meshcase := mkMesh {
   m_Q : metric; m_L : Z; m_c2 : Z; m_hmax : V3; m_ops : list M3;
@@ -99,7 +114,7 @@ Definition check_mesh (k : meshcase) : nat * nat :=
     match first_false (fun rc => inBZb (m_Q k) (m_L k) (m_c2 k) (m_hmax k) (fst rc)) (m_red k) 0 with
     | Some i => (3%nat, i)
     | None =>
-      if valid_reductionb (cls_min (m_ops k)) veqb (m_full k) (m_red k) then (0%nat, length (reduce (cls_min (m_ops k)) veqb (m_full k)))
+      if valid_reduction2b (cls_min (m_ops k)) veqb (m_full k) (m_red k) then (0%nat, length (reduce (cls_min (m_ops k)) veqb (m_full k)))
       else (4%nat, length (reduce (cls_min (m_ops k)) veqb (m_full k)))
     end
   end.
